@@ -509,6 +509,20 @@ pub fn apply_ref(op: Op, a: &[Val], u: f64) -> Val {
             }
             r
         }
+        SphJ0 | SphJ1 | SphJ2 => {
+            // all derivatives of j_n are bounded by 1: + the rounding level of a well-conditioned
+            // evaluation, 16 u sum |N^k| (C15: "accuracy is measured against the magnitude of the
+            // true value plus the rounding level of a well-conditioned evaluation")
+            let mut r = smooth(op.func().unwrap(), x, kap, u);
+            let n = x.v.abs().nil();
+            let ones: Vec<DD> = (0..=x.v.shape.maxdeg).map(|_| DD::ONE).collect();
+            let s = n.apply(&ones);
+            for i in 0..r.e.c.len() {
+                let scale = if i == 0 { DD::ONE } else { s.c[i] };
+                r.e.c[i] = r.e.c[i].add_dd(scale.mul_f(16.0 * u));
+            }
+            r
+        }
         BesselJ0 | BesselJ1 | BesselJ2 => {
             // absolute scale (all derivatives of J_n are bounded by 1; the implementation
             // differentiates rational / asymptotic approximants): + kappa_k u sum |N^k|
